@@ -39,10 +39,10 @@ Theorem C09_one_frame_call_delivers_one_whole_frame :
          at_frame im (S k) s'.
 Proof. exact one_frame. Qed.
 
-(* once no frame remains, next_frame changes nothing and reports end-of-image *)
+(* once no frame remains and no row of the last frame is outstanding, next_frame changes nothing and reports end-of-image (rows of the last frame still buffered after an early flush are delivered first: C13) *)
 Theorem C09_end_of_image_is_stable :
   forall (im : image) (vis : nat) (s : rstate),
-       remaining s = 0 -> step im vis s OFrame = (s, REndOfImage, []).
+       remaining s = 0 -> next_row s = None -> step im vis s OFrame = (s, REndOfImage, []).
 Proof. exact frame_at_end. Qed.
 
 Example C09_nonvacuous :
